@@ -280,9 +280,20 @@ class Ctx:
         if self.harness_bin:
             return self.harness_bin
         t = time.time()
-        shutil.copy(os.path.join(REPO, "go.sum"), os.path.join(HARNESS, "go.sum"))
         out = os.path.join(self.scratch, "vharness")
-        p = subprocess.run(["go", "build", "-tags", "verif", "-o", out, "./cmd/vharness"],
+        cmd = ["go", "build", "-tags", "verif", "-o", out]
+        if REPO == "/repo":
+            shutil.copy(os.path.join(REPO, "go.sum"), os.path.join(HARNESS, "go.sum"))
+        else:
+            # another tree (a scratch worktree with a seeded change): same harness sources, own module file
+            alt = os.path.join(self.scratch, "go.alt.mod")
+            with open(os.path.join(HARNESS, "go.mod")) as fh:
+                mod = fh.read().replace("=> /repo", "=> " + REPO)
+            with open(alt, "w") as fh:
+                fh.write(mod)
+            shutil.copy(os.path.join(REPO, "go.sum"), os.path.join(self.scratch, "go.alt.sum"))
+            cmd.append("-modfile=" + alt)
+        p = subprocess.run(cmd + ["./cmd/vharness"],
                            cwd=HARNESS, env=goenv(), stdout=subprocess.PIPE, stderr=subprocess.STDOUT, text=True)
         if p.returncode != 0:
             raise Infra("harness build failed against %s:\n%s" % (REPO, p.stdout[-4000:]))
@@ -519,8 +530,9 @@ class Ctx:
         ev = {"property_id": self.pid, "tier": self.tier, "seed": self.seed, "level": level,
               "coverage": cov, "assumptions": self.assumptions, "wall_s": round(wall, 2),
               "violations": len(self.divergences)}
-        os.makedirs(EVIDENCE, exist_ok=True)
-        with open(os.path.join(EVIDENCE, "%s.json" % self.pid), "w") as fh:
+        evdir = EVIDENCE if REPO == "/repo" else os.path.join(self.scratch, "evidence")   # evidence is about /repo only
+        os.makedirs(evdir, exist_ok=True)
+        with open(os.path.join(evdir, "%s.json" % self.pid), "w") as fh:
             json.dump(ev, fh, indent=1, sort_keys=True)
         findings = load_findings()
         for fid, cnt in sorted(self.known_hits.items()):
